@@ -171,8 +171,14 @@ pub fn run(prop: &str, tier: Tier) -> i32 {
             rep.machinery_errors.push("iso_classes_augment(4, 16) does not give the 3044 classes of U(4)".into());
         }
         let n_classes = classes.len();
+        let mut graphs6 = named(classes, "U6iso");
+        if !thorough {
+            // quick: the classes with exactly 8 attacks as well, with the library's default encoder only
+            let eight: Vec<crate::refmodel::Graph> = crate::universe::iso_classes_augment(6, 8).into_iter().filter(|g| g.att.len() == 8).collect();
+            graphs6.extend(eight.into_iter().map(|g| (format!("{}U6iso8:{}", crate::sweep::LIB_DEFAULT_ONLY, g.code()), g)));
+        }
         let plan = SweepPlan {
-            graphs: named(classes, "U6iso"),
+            graphs: graphs6,
             presentations: vec![Presentation::Compact],
             kinds: kinds.clone(),
             sems: all_sems(),
@@ -183,7 +189,7 @@ pub fn run(prop: &str, tier: Tier) -> i32 {
             with_cadical: true,
             prop_of,
         };
-        fill_report(&mut rep, plan.run(), &format!("one representative per isomorphism class of 6-argument frameworks with <= {} attacks ({}), CaDiCaL{}", k, n_classes, if thorough { " and D<=1" } else { "" }));
+        fill_report(&mut rep, plan.run(), &format!("one representative per isomorphism class of 6-argument frameworks with <= {} attacks ({}), CaDiCaL{}", k, n_classes, if thorough { " and D<=1" } else { "; the 46 528 classes with exactly 8 attacks with the library's default encoder" }));
     }
     // (2b'') composition family: irregular frameworks of up to 9 arguments glued from small pieces
     {
